@@ -178,6 +178,11 @@ def _replay_episode(case, b, res, checks, actions):
                     return stats
                 for trd in entry.trades:
                     led.trade(F.index(trd.contract), float(trd.quantity))
+                if any(0 < abs(led.q[i]) < 1e-7 for i in range(n)):
+                    # a nearly exhausted account sized a position inside the documented epsilon band (zeroed by design)
+                    res.excluded = "position-inside-documented-epsilon-band"
+                    stats["ruin"] = True
+                    return stats
                 for i in range(n):
                     got = float(hq.get(F.contracts[i], 0.0))
                     if not B.close(got, led.q[i], rel=1e-12, abs_=1e-12):
@@ -262,6 +267,12 @@ def _replay_episode(case, b, res, checks, actions):
             any_nonzero = True
         if any_nonzero:
             stats["nonzero_trade_execs"] += 1
+        if any(0 < abs(led.q[i]) < 1e-7 for i in range(n)):
+            # (only reachable when fees have all but exhausted the account: weights of >= 2% then size positions inside the
+            #  documented epsilon band, which the broker zeroes by design)
+            res.excluded = "position-inside-documented-epsilon-band"
+            stats["ruin"] = True
+            return stats
         if prev_book is not None and (prev_book[0] != bid or prev_book[1] != ask):
             stats["quote_changed_between"] += 1
         prev_book = (list(bid), list(ask))
